@@ -289,6 +289,8 @@ type Session struct {
 	softMs  int
 	feasMs  int
 	curMs   int
+	feasUnknown int
+	feasSkip    int
 }
 
 const prelude = `(set-option :produce-models true)
@@ -368,9 +370,24 @@ func (s *Session) Pop() {
 // Feasible is a cheap satisfiability check used to prune infeasible branches: "unknown" after a
 // short time limit counts as feasible (pruning is an optimisation, never needed for soundness).
 func (s *Session) Feasible() string {
+	// when the context has grown quantifiers the solver answers "unknown" after the time limit over
+	// and over: stop asking for a while (every branch then counts as feasible)
+	if s.feasSkip > 0 {
+		s.feasSkip--
+		return "unknown"
+	}
 	s.setTimeout(s.feasMs)
 	r := s.Check()
 	s.setTimeout(s.softMs)
+	if r == "unknown" {
+		s.feasUnknown++
+		if s.feasUnknown >= 3 {
+			s.feasSkip = 25
+			s.feasUnknown = 2
+		}
+	} else {
+		s.feasUnknown = 0
+	}
 	return r
 }
 
